@@ -26,6 +26,7 @@ NextH == \/ \E c \in ConsIds : Do("subject_to", c, SubjectTo(c))
          \/ \E v \in Tvals : Do("set_T", ToString(v), SetT(v))
          \/ \E v \in T0vals : Do("set_t0", ToString(v), SetT0(v))
          \/ \E v \in Pvals : Do("set_value", ToString(v), SetValue(v))
+         \/ \E v \in {2, 3} : Do("set_value_cat", ToString(v), SetValueCat(v))
          \/ \E g \in Gvals : Do("set_initial", ToString(g), SetInitial(g))
          \/ Do("sample", "", Sample) \/ Do("value", "", Value) \/ Do("jacobian", "", Jacobian)
          \/ Do("solve", "", Solve) \/ Do("sol_sample", "", SolSample)
@@ -33,8 +34,8 @@ NextH == \/ \E c \in ConsIds : Do("subject_to", c, SubjectTo(c))
 
 \* partition exhaustive runs by the first operation
 FirstCode == IF Len(hist) = 0 THEN 0
-             ELSE CHOOSE i \in 0..15 : hist[1].op = <<"subject_to", "clear_constraints", "add_objective", "method", "solver",
-                         "set_T", "set_t0", "set_value", "set_initial", "sample", "value", "jacobian", "solve", "save", "sol_sample", "add_state">>[i + 1]
+             ELSE CHOOSE i \in 0..16 : hist[1].op = <<"subject_to", "clear_constraints", "add_objective", "method", "solver",
+                         "set_T", "set_t0", "set_value", "set_initial", "sample", "value", "jacobian", "solve", "save", "sol_sample", "add_state", "set_value_cat">>[i + 1]
 InPart == Len(hist) = 0 \/ FirstCode % Parts = Part
 
 Emit == (Len(hist) = Depth /\ InPart) => TLCSet(1, Append(TLCGet(1), [sc |-> [depth |-> Depth, n |-> Len(TLCGet(1))], hist |-> hist]))
